@@ -215,6 +215,7 @@ fn grid3<T: Tier + Dom<M = Sh>>(rep: &mut Report) {
         grid3_at::<T>(rep, nm, 1, sc);
     }
     near_axis3::<T>(rep);
+    steep3::<T>(rep);
 }
 fn grid3_at<T: Tier + Dom<M = Sh>>(rep: &mut Report, name: &str, r: i64, sc: (i32, i32)) {
     let side = (2 * r + 1) as usize;
@@ -293,6 +294,42 @@ fn near_axis3<T: Tier + Dom<M = Sh>>(rep: &mut Report) {
             let u2 = model::cross(f, sd);
             let want: [[Sh; 3]; 3] = std::array::from_fn(|cc| [sd[cc], u2[cc], f[cc]]);
             judge3::<T>(ctx, eye, dir, up, want, 8.0, 1.0);
+        },
+    );
+}
+
+/// float tiers: looking almost straight along the up vector, with `up` exactly a coordinate axis (the usual world up):
+/// the statement only needs them not parallel
+fn steep3<T: Tier + Dom<M = Sh>>(rep: &mut Report) {
+    let ks: Vec<i32> = (2..=16).step_by(2).collect();
+    let dims = [3usize, 2, 2, ks.len(), 2];
+    rep.cases(
+        "grid3/steep",
+        T::NAME,
+        &format!("up = e_k or 2.5 e_k exactly, dir = +-up direction tilted by 2^-j (j in {:?}) in two ways, 2 eyes", ks),
+        alphabet::product_len(&dims),
+        Guard::states(50).distinct(50),
+        |i, ctx| {
+            let d = alphabet::decode(i, &dims);
+            let c = |x: f64| num_traits::cast::<f64, T>(x).unwrap();
+            let (k, sg, t) = (d[0], if d[1] == 0 { 1.0 } else { -1.0 }, 2f64.powi(-ks[d[3]]));
+            let mut upf = [0.0f64; 3];
+            upf[k] = if d[2] == 0 { 1.0 } else { 2.5 };
+            let mut df = [0.0f64; 3];
+            df[k] = sg * 3.0;
+            df[(k + 1) % 3] = 3.0 * t * if d[4] == 0 { 1.0 } else { -0.6 };
+            df[(k + 2) % 3] = 3.0 * t * if d[4] == 0 { 0.0 } else { 0.8 };
+            let (dir, up): ([T; 3], [T; 3]) = (df.map(c), upf.map(c));
+            let eye: [T; 3] = vec_from_r::<T, 3>(&alphabet::generic(3, d[4]));
+            ctx.describe(|| format!("eye={:?} dir={:?} up={:?}", eye, dir, up));
+            ctx.out(&d);
+            let (md, mu): ([Sh; 3], [Sh; 3]) = (lift_v(dir), lift_v(up));
+            let f = model::vnormalize(md);
+            let sd = model::vnormalize(model::cross(mu, f));
+            let u2 = model::cross(f, sd);
+            let want: [[Sh; 3]; 3] = std::array::from_fn(|cc| [sd[cc], u2[cc], f[cc]]);
+            // conditioning: 1 / sin(angle between d and up) = 1 / t
+            judge3::<T>(ctx, eye, dir, up, want, 8.0, 1.0 + 1.0 / (16.0 * t));
         },
     );
 }
